@@ -81,6 +81,9 @@ def requirements(tier):
             'foreign_class_dumps': 400 if q else 5000,
             'aborted_json_dumps': 300 if q else 4000,
             'baseline_calls': 5000 if q else 60000,
+            'partial_registration_calls': 2000 if q else 26000,
+            'full_registration_calls_of_partially_used_classes':
+                500 if q else 6500,
             'thread_overlapping_calls': 2000 if q else 26666,
             'registry_snapshots_compared': 150 if q else 1800,
             'battery_runs': 150 if q else 1800}
@@ -104,15 +107,22 @@ class FailingSink:
             raise _Boom('sink refuses')
 
 
-def make_fn(m, kind, doc_type):
+def make_fn(m, kind, doc_type, opts=None):
+    # opts['unregistered']: classes of the model this function is not given
+    # (partial registration over the same class objects)
+    order = None
+    if opts and opts.get('unregistered'):
+        order = [c['name'] for c in m.spec['classes']
+                 if c.get('registered', True)
+                 and c['name'] not in opts['unregistered']]
     if kind == 'load':
-        return m.load_fn(doc_type)
+        return m.load_fn(doc_type, order=order)
     if kind == 'dumps':
-        return m.dumps_fn()
+        return m.dumps_fn(order=order)
     if kind == 'dumps_json':
-        return m.dumps_json_fn()
+        return m.dumps_json_fn(order=order)
     if kind == 'dump_json_sink':
-        return m.dump_json_fn()
+        return m.dump_json_fn(order=order)
     raise ValueError(kind)
 
 
@@ -176,7 +186,7 @@ def _recv(fd):
 def _baseline_one(req):
     spec, kind, doc_type, arg, opts = req
     m = H.model_of(spec)
-    fn = make_fn(m, kind, doc_type)
+    fn = make_fn(m, kind, doc_type, opts)
     pyarg = decode_arg(m, kind, arg, None)
     return perform(fn, kind, pyarg, opts)
 
@@ -252,6 +262,28 @@ STOCK = ['BaseLoader', 'SafeLoader', 'FullLoader', 'UnsafeLoader', 'Loader',
          'BaseDumper', 'SafeDumper', 'Dumper']
 
 
+def _data_repr(v, depth=0):
+    """Content of a class-level data attribute (None for functions,
+    descriptors and the like)."""
+    import re as _re
+    if isinstance(v, (str, bytes, int, float, bool, type(None))):
+        return repr(v)
+    if isinstance(v, _re.Pattern):
+        return 're:%s:%d' % (v.pattern, v.flags)
+    if depth > 3:
+        return None
+    if isinstance(v, dict):
+        items = [(repr(k), _data_repr(x, depth + 1)) for k, x in v.items()]
+        return 'dict:' + repr(sorted((k, x if x is not None else '?')
+                                     for k, x in items))
+    if isinstance(v, (list, tuple)):
+        return '%s:%r' % (type(v).__name__, [
+            _data_repr(x, depth + 1) or '?' for x in v])
+    if isinstance(v, (set, frozenset)):
+        return 'set:%r' % sorted(_data_repr(x, depth + 1) or '?' for x in v)
+    return None
+
+
 def registry_snapshot():
     snap = {}
     classes = [(n, getattr(yaml, n)) for n in STOCK if hasattr(yaml, n)]
@@ -281,6 +313,23 @@ def registry_snapshot():
         t = getattr(cls, 'yaml_path_resolvers', None)
         if t is not None:
             snap['%s.yaml_path_resolvers' % name] = (id(t), len(t))
+        # every class-level data attribute anywhere in the class's MRO
+        # inside PyYAML / yatiml (bool_values, inf_value, timestamp_regexp,
+        # DEFAULT_MAPPING_TAG, ESCAPE_REPLACEMENTS, ...): content, not
+        # identity, so that an in-place update shows
+        for k in cls.__mro__:
+            if not (k.__module__ or '').startswith(('yaml', 'yatiml')):
+                continue
+            for attr, v in vars(k).items():
+                if attr.startswith('__') or attr in (
+                        'yaml_constructors', 'yaml_multi_constructors',
+                        'yaml_representers', 'yaml_multi_representers',
+                        'yaml_implicit_resolvers', 'yaml_path_resolvers',
+                        '_abc_impl'):
+                    continue
+                d = _data_repr(v)
+                if d is not None:
+                    snap['%s.%s(%s)' % (name, attr, k.__name__)] = d
         for attr in ('_registered_classes', '_additional_classes',
                      'document_type', 'output_format'):
             if attr in vars(cls):
@@ -314,12 +363,20 @@ BATTERY_LOAD = ['1e3', '1.5e3', '1_000.5', '1:30.5', '190:20:30', 'yes', 'no',
                 '1e', '[1e3, yes, 1:30]', '{a: 1e3, yes: no}', '"1e3"',
                 '!!python/object:os.system {}', '!Foo {a: 1}', '!!set {a, b}',
                 '!!omap [a: 1]', '!!binary aGk=', 'a: &x 1\nb: *x\n', '- 9e5',
-                '9_000.5', 'k: 0.1e+2']
+                '9_000.5', 'k: 0.1e+2', '!!bool y', '!!bool n', '!!bool Yes',
+                '!!bool maybe', '!!int 0o17', '!!int 1_0', '!!float 1e3',
+                '!!float .Inf', '!!float 1_0.5', '!!null x', '!!str 1',
+                '!!timestamp 2001-12-14', '!!int 1:30', '"\\x41\\u0041"',
+                '[.NaN, -.inf, 0b11, 0x_1f, +12e03]', '? [1, 2]\n: x\n',
+                '{a: 1, <<: {b: 2}}']
 BATTERY_DUMP = ['1e3', '1.5e3', 'yes', 'on', 'true', '1_000', '1:30', '.inf',
                 '~', 'null', '2001-12-14', '', ' ', 'a: b', 1, 1.5, 1e22,
                 float('inf'), True, None, [1, 'yes'], {'a': '1e3'},
                 collections.OrderedDict([('b', 1), ('a', 2)]), (1, 2),
-                b'hi', {'on': 'off'}, '9e5', '0o17']
+                b'hi', {'on': 'off'}, '9e5', '0o17', 'y', 'n', 'Y', '=', '<<',
+                '1_0', '0b11', '1e', float('nan'), -0.0, 10 ** 20, {1, 2},
+                '\u00e9\u2028', 'a\nb\n', ' lead', 'trail ', '- x', '? x',
+                '&a', '*a', '!t', '%d', '@', '`']
 
 
 def battery():
@@ -388,6 +445,21 @@ def build_pool(ctx, rng, n):
                            {'name': 'dwidth', 'type': 'int',
                             'default': dflt}],
                 'sweeten': [['remove_defaults']], 'savorize': [['record']]})
+        # a hooked base and a derived class, used through functions that
+        # are given both and through functions that are given the derived
+        # class only (the base's hooks then do not run): seasoning that is
+        # not idempotent, so that one run too many or too few shows
+        spec['classes'].append({
+            'name': 'SBase', 'kind': 'plain',
+            'params': [{'name': 'sb_n', 'type': 'int'}],
+            'savorize': [['add_int', 'sb_n', 1]],
+            'sweeten': [['add_int', 'sb_n', -1]]})
+        spec['classes'].append({
+            'name': 'SKid', 'kind': 'plain', 'bases': ['SBase'],
+            'params': [{'name': 'sb_n', 'type': 'int'},
+                       {'name': 'skid_id', 'type': 'int'}],
+            'savorize': [['add_int', 'skid_id', 10]],
+            'sweeten': [['add_int', 'skid_id', -10]]})
         try:
             H.model_of(spec)
         except Exception:
@@ -395,6 +467,48 @@ def build_pool(ctx, rng, n):
             continue
         specs.append(H.clean_spec(spec))
     return specs
+
+
+def partial_items(ctx, rng, spec, m, out):
+    """Calls through functions that were given only some of the model's
+    classes (the same class objects as the other functions of the
+    history)."""
+    # the directed pair: with and without the hooked base
+    for unreg in ((), ('SBase',)):
+        o = {'unregistered': list(unreg)} if unreg else {}
+        n = rng.randint(0, 50)
+        out.append(('load', ['cls', 'SKid'],
+                    'sb_n: %d\nskid_id: %d\n' % (n, n + 1), dict(o),
+                    'hooked-doc'))
+        out.append(('load', ['list', ['cls', 'SKid']],
+                    '- {sb_n: %d, skid_id: 1}\n- {sb_n: 2, skid_id: %d}\n'
+                    % (n, n), dict(o), 'hooked-doc'))
+        try:
+            kid = m.classes['SKid'](sb_n=n, skid_id=n + 2)
+        except Exception:
+            continue
+        enc = {'value': V.encode_value([kid])}
+        out.append(('dumps', None, enc, dict(o), 'hooked-value'))
+        out.append(('dumps_json', None, enc,
+                    dict(o, indent=rng.choice([None, 2])), 'hooked-value'))
+    # random subsets of the generated classes: the valid documents and
+    # values of the full model through a function that lacks 1-2 classes
+    # (whatever that gives - an error mostly - must be what a fresh process
+    # gives)
+    dt = spec['doc_type']
+    top = dt[1] if isinstance(dt, list) and dt[0] == 'cls' else None
+    names = [c['name'] for c in spec['classes'] if c.get('registered', True)
+             and c['name'] != top and c['name'] not in (
+                 'SBase', 'SKid', 'AnyScalar')]
+    if not names:
+        return
+    drop = sorted(rng.sample(names, min(len(names), rng.randint(1, 2))))
+    for item in list(out):
+        kind, doc_type, arg, opts, label = item
+        if label in ('valid', 'value', 'defaults-value') and \
+                rng.random() < 0.5:
+            out.append((kind, doc_type, arg,
+                        dict(opts, unregistered=drop), label))
 
 
 def arg_pool(ctx, rng, specs, i):
@@ -522,6 +636,7 @@ def arg_pool(ctx, rng, specs, i):
         out.append(('dumps_json', None, {'value': V.encode_value(
             [1, {'a': [2, 'x']}, []])}, {'indent': rng.choice([None, 0, 3])},
             'value'))
+    partial_items(ctx, rng, spec, m, out)
     return out
 
 
@@ -537,13 +652,16 @@ class History:
         self.clock = itertools.count()
         self.last_failed = threading.local()
 
-    def fn_for(self, rng, i, kind, doc_type, force_new=False):
-        key = (i, kind, repr(doc_type))
+    def fn_for(self, rng, i, kind, doc_type, force_new=False, opts=None):
+        unreg = tuple((opts or {}).get('unregistered') or ())
+        key = (i, kind, repr(doc_type), unreg)
         lst = self.fns.setdefault(key, [])
         if force_new or not lst or (len(lst) < 3 and rng.random() < 0.3):
             m = H.model_of(self.specs[i])
-            lst.append(make_fn(m, kind, doc_type))
+            lst.append(make_fn(m, kind, doc_type, opts))
             self.ctx.count('functions_created')
+            if unreg:
+                self.ctx.count('partial_registration_functions_created')
         return rng.choice(lst)
 
     def call(self, rng, i, item, phase, fn=None):
@@ -552,7 +670,7 @@ class History:
         spec = self.specs[i]
         m = H.model_of(spec)
         if fn is None:
-            fn = self.fn_for(rng, i, kind, doc_type)
+            fn = self.fn_for(rng, i, kind, doc_type, opts=opts)
         pyarg = decode_arg(m, kind, arg, None)
         t0 = next(self.clock)
         got = perform(fn, kind, pyarg, opts)
@@ -568,6 +686,10 @@ class History:
             ctx.count('foreign_class_dumps')
         if label in ('aliased', 'failing-sink'):
             ctx.count('aborted_json_dumps')
+        if opts.get('unregistered'):
+            ctx.count('partial_registration_calls')
+        elif label.startswith('hooked-'):
+            ctx.count('full_registration_calls_of_partially_used_classes')
         if getattr(self.last_failed, 'v', False):
             ctx.count('calls_after_failed_call')
         self.last_failed.v = got[0] == 'err'
@@ -622,7 +744,7 @@ def run_history(ctx, baseline, rng, hist_id, yield_inject=False):
             continue
         item = rng.choice(pools[i])
         if rng.random() < 0.15:
-            h.fn_for(rng, i, item[0], item[1], force_new=True)
+            h.fn_for(rng, i, item[0], item[1], force_new=True, opts=item[3])
         h.call(rng, i, item, 'sequential')
     # threaded phase: shared function objects
     nthreads = rng.randint(4, 8)
@@ -635,7 +757,8 @@ def run_history(ctx, baseline, rng, hist_id, yield_inject=False):
             if pools[i]:
                 item = rng.choice(pools[i])
                 # resolve the function up front: creation is not the racy part
-                plan.append((i, item, h.fn_for(rng, i, item[0], item[1])))
+                plan.append((i, item, h.fn_for(rng, i, item[0], item[1],
+                                               opts=item[3])))
         plans.append((plan, __import__('random').Random(rng.getrandbits(32))))
     spans = [[] for _ in range(nthreads)]
     errors = []
